@@ -64,6 +64,25 @@ func (ex *Exec) execCommon(st *State, c *ssa.CallCommon, site ssa.Value, pos tok
 	}
 	if callee := c.StaticCallee(); callee != nil {
 		name := callee.String()
+		if ex.con != nil && ex.con.Before != nil {
+			if cls := ex.con.Before[callee.Name()]; cls != nil {
+				env := ex.specEnv(st, ex.entry, false)
+				for i, cl := range cls {
+					t, err := env.evalBool(cl.Expr)
+					if err != nil {
+						ex.fail("before %s %q: %v", callee.Name(), cl.Src, err)
+						continue
+					}
+					label := cl.Label
+					if label == "" {
+						label = fmt.Sprintf("%d", i+1)
+					}
+					o := vc.oblige("assert", fmt.Sprintf("assert:%s@%s#%s", ex.conName(), callee.Name(), label), st.guard, t, ex.pos(pos))
+					o.Note = cl.Src
+					ex.beforeSeen[callee.Name()] = true
+				}
+			}
+		}
 		if isLockCall(name) {
 			ex.execLock(st, name, c, pos)
 			return nil
